@@ -17,13 +17,15 @@ Definition eqm (p : param) : bool :=
 (* LEXICOGRAPHICAL_MEMCMP_COMPATIBLE<T>: byte types with T(-1) > T(1) *)
 Definition lxm (p : param) : bool :=
   match pty p with TU8 | TByte => true | _ => false end.
-(* std::is_trivially_{copy,move}_assignable (the instrumented type TTrkC has defaulted,
-   hence trivial, assignment operators) *)
-Definition tasg (p : param) : bool := match pty p with TTrk => false | _ => true end.
+(* std::is_trivially_copy_assignable ([mv] = false) / std::is_trivially_move_assignable
+   ([mv] = true): the library keeps one run table for each (the instrumented type TTrkC has
+   defaulted, hence trivial, assignment operators) *)
+Definition tasg (mv : bool) (p : param) : bool :=
+  match pty p with TTrk => false | TTrkMA => negb mv | TTrkCA => mv | _ => true end.
 (* IS_TRIVIALLY_SWAPPABLE: trivially destructible, move constructible and move assignable,
    no ADL swap (std::byte lives in namespace std, so ADL finds std::swap for it and the
    library swaps it object by object) *)
-Definition tswp (p : param) : bool := match pty p with TTrk | TTrkC | TByte => false | _ => true end.
+Definition tswp (p : param) : bool := match pty p with TTrk | TTrkC | TByte | TTrkMA => false | _ => true end.
 
 (* ---------- calculate_consecutive_indices ---------- *)
 Inductive ridx := RSkip | RManual | REnd (e : nat).
@@ -47,7 +49,7 @@ Fixpoint runs_from (pred : param -> bool) (bpad bspan : bool) (L : list param) (
   end.
 Definition runs (pred : param -> bool) (bpad bspan : bool) (L : list param) : list ridx :=
   runs_from pred bpad bspan L (prevs L) 0 0 (repeat RSkip (length L)).
-Definition runs_asg (L : list param) := runs tasg false false L.
+Definition runs_asg (mv : bool) (L : list param) := runs (tasg mv) false false L.
 Definition runs_swp (L : list param) := runs tswp false false L.
 Definition runs_eq (L : list param) := runs eqm true true L.
 Definition runs_lex (L : list param) := runs lxm true false L.
@@ -203,7 +205,7 @@ Fixpoint assign_objs (mv : bool) (p : param) (sb db : nat) (x : mm) (sa da : Z) 
 (* ElementTraits::assign<UseMove>(source, target) *)
 Definition assign_one (mv : bool) (L : list param) (sb db : nat) (fls fld : list (Z * Z)) (x : mm) (k : nat)
   : mm * list ev :=
-  match nth k (runs_asg L) RSkip with
+  match nth k (runs_asg mv L) RSkip with
   | RSkip => (x, [])
   | RManual =>
       assign_objs mv (nth k L pparam0) sb db x (fst (nth k fls fld0)) (fst (nth k fld fld0))
